@@ -142,6 +142,16 @@ func (cb *CanonicalBlock) UnmarshalCbor(r io.Reader) error {
 		cb.CRCType = CRCType(crcT)
 	}
 
+	// The CRC type must be known and the array length has to announce a CRC field exactly if the CRC type demands one.
+	switch cb.CRCType {
+	case CRCNo, CRC16, CRC32:
+		if hasCRCField := blockLen == 6; hasCRCField != cb.HasCRC() {
+			return fmt.Errorf("CRC type %v does not match array of %d elements", cb.CRCType, blockLen)
+		}
+	default:
+		return fmt.Errorf("unknown CRC type %d", cb.CRCType)
+	}
+
 	if b, err := GetExtensionBlockManager().ReadBlock(blockType, r); err != nil {
 		return fmt.Errorf("unmarshalling block type %d failed: %v", blockType, err)
 	} else {
